@@ -5,6 +5,8 @@ import (
 	"go/ast"
 	"go/types"
 
+	"golang.org/x/tools/go/cfg"
+
 	"zverif/checker/an"
 )
 
@@ -43,34 +45,39 @@ func errCheckedBefore(r *an.R, rule string, d *an.DeclInfo, g *an.G, fname, what
 	}
 	for o := range errVars {
 		o := o
+		isAssign := func(l an.Loc) bool { return assignsTo(g.Node(l), o) }
 		for _, t := range targets {
-			// skip targets that (re)assign this error themselves: the fact is needed before the call
-			ok := g.GuardedBy(t, func(cond ast.Expr, truth bool) bool {
-				be, isB := ast.Unparen(cond).(*ast.BinaryExpr)
-				if !isB {
-					return false
-				}
-				if !an.UsesObj(info, be.X, o) || !info.Types[be.Y].IsNil() {
-					return false
-				}
-				return (be.Op.String() == "!=" && !truth) || (be.Op.String() == "==" && truth)
-			}, func(l an.Loc) bool { return l != t && assignsTo(g.Node(l), o) })
-			// the fact is only required if an assignment to o can reach the target at all
-			assigned := false
 			for _, al := range g.Locs(func(n ast.Node) bool { return assignsTo(n, o) }) {
 				if al == t {
 					continue
 				}
-				if g.Reach(al, true, &an.Search{Target: func(l an.Loc) bool { return l == t }}) {
-					assigned = true
+				// a path from the assignment to the target that never takes an
+				// edge establishing o == nil (and is not re-assigned) is a violation
+				unchecked := g.Reach(al, true, &an.Search{
+					Target: func(l an.Loc) bool { return l == t },
+					Cut:    func(l an.Loc) bool { return l != t && isAssign(l) },
+					CutEdge: func(b *cfg.Block, k int) bool {
+						cond := an.CondOf(b)
+						if cond == nil {
+							return false
+						}
+						return an.Implied(cond, k == 0, func(atom ast.Expr, truth bool) bool {
+							be, isB := ast.Unparen(atom).(*ast.BinaryExpr)
+							if !isB || !an.UsesObj(info, be.X, o) || !info.Types[be.Y].IsNil() {
+								return false
+							}
+							return (be.Op.String() == "!=" && !truth) || (be.Op.String() == "==" && truth)
+						})
+					},
+				})
+				reaches := g.Reach(al, true, &an.Search{Target: func(l an.Loc) bool { return l == t }, Cut: func(l an.Loc) bool { return l != t && isAssign(l) }})
+				if !reaches {
+					continue
 				}
+				key := fmt.Sprintf("%s/err-checked-before-"+what+"/%s@%s", fname, o.Name(), declOrdinal(info, d.Decl, o))
+				r.Check(!unchecked, rule, key, g.Node(t).Pos(), "every assignment of this error is tested (== nil edge) before the call",
+					"the call is reachable with this error assigned and untested: "+consequence)
 			}
-			if !assigned {
-				continue
-			}
-			key := fmt.Sprintf("%s/err-checked-before-"+what+"/%s@%s", fname, o.Name(), declOrdinal(info, d.Decl, o))
-			r.Check(ok, "C07.R4", key, g.Node(t).Pos(), "every assignment of this error is tested (== nil edge) before the Searcher call",
-				"the call is reachable with this error assigned and untested: "+consequence)
 		}
 	}
 	return errVars
